@@ -107,12 +107,21 @@ def code_for_string_token(name, value, location):
     assert len(value) >= 2
     left_quote = value[0]
     right_quote = value[-1]
-    assert left_quote in "\"'", "left_quote=%r" % left_quote
-    assert right_quote in "\"'", "right_quote=%r" % right_quote
+    if (left_quote not in "\"'") or (right_quote not in "\"'"):
+        raise errors.InterfaceError(
+            "text for %s must be enclosed in quotes without any prefix but is: %s" % (name, _compat.text_repr(value)),
+            location,
+        )
 
     value_without_quotes = value[1:-1]
     if len(value_without_quotes) != 1:
-        value_without_quotes = value_without_quotes.encode("utf-8").decode("unicode_escape")
+        try:
+            value_without_quotes = value_without_quotes.encode("utf-8").decode("unicode_escape")
+        except UnicodeDecodeError as error:
+            raise errors.InterfaceError(
+                "text for %s must use valid escape sequences but is: %s (%s)" % (name, _compat.text_repr(value), error),
+                location,
+            )
         if len(value_without_quotes) != 1:
             raise errors.InterfaceError(
                 "text for %s must be a single character but is: %s" % (name, _compat.text_repr(value)), location
